@@ -1,7 +1,15 @@
 """C02 -- tree transformations never change the value the tree computes.
-Shares its machinery (tracer, histories, model replay) with harness/props/c04.py."""
+Shares its machinery (tracer, histories, model replay) with harness/props/c04.py.
+
+C02 step 3 (Props/C02rec.v): on top of the shared driver this check evaluates, inside Coq,
+  * monA_ok (Model/TreeStateRec.v) on EVERY recorded primitive trace: the boolean precondition
+    primA_pre_b of C02rec_prim_preserves_A (C04's prim_pre_b plus "legs supplied for the root carry the
+    declared output order") holds for every covered primitive at the state the model reaches;
+  * sorted_keys_b on every state in which a contraction just ran (a side condition of
+    C02rec_history_value; preproc_complete_b is part of contractible_b, evaluated by the driver)."""
 import os
 import sys
+import time
 
 sys.path.insert(0, os.path.dirname(os.path.abspath(__file__)))
 import c04
@@ -10,8 +18,86 @@ from vlib.core import main
 PROP = "C02"
 
 
+def split_top(s):
+    """split a Coq application into its top-level arguments (parentheses / brackets respected)"""
+    out, depth, cur = [], 0, []
+    for ch in s:
+        if ch in "([":
+            depth += 1
+        elif ch in ")]":
+            depth -= 1
+        if ch.isspace() and depth == 0:
+            if cur:
+                out.append("".join(cur))
+                cur = []
+        else:
+            cur.append(ch)
+    if cur:
+        out.append("".join(cur))
+    return out
+
+
+def monitor_A(ctx, coq_cases, captured):
+    # --- the precondition monitor of (A) on every recorded trace -------------------------------
+    mon_cases = []
+    for label, lhs, _rhs in captured.get("c02_trace", []):
+        pre = "mobs (mrun "
+        if not lhs.startswith(pre):
+            continue
+        body = lhs[len(pre):]
+        k = body.rfind(")")          # "... [(tid, PRE)]) post_tid"
+        mon_cases.append((label + ".preA", "monA_ok " + body[:k], "true"))
+    if mon_cases:
+        t0 = time.time()
+        failing = coq_cases("c02_preA", ["TreeState", "TreeStatePre", "TreeStateRec"], mon_cases,
+                            chunk=max(20, len(mon_cases) // 48 + 1), timeout=900)
+        ctx.log("precondition monitor of (A) on %d traces in %.1fs, %d failing" % (
+            len(mon_cases), time.time() - t0, len(failing)))
+        ctx.count("preA_traces_checked", len(mon_cases))
+        for idx, label, val in failing[:5]:
+            ctx.fail("a recorded primitive does not meet the precondition of C02rec_prim_preserves_A (primA_pre_b)",
+                     {"label": label, "case": mon_cases[idx][1][:4000] if idx < len(mon_cases) else None,
+                      "monitor": val,
+                      "correspondence": "monA_ok (Model/TreeStateRec.v) on the recorded primitive trace"},
+                     found_input=False)
+    # --- side condition of C02rec_history_value on the states in which a contraction ran --------
+    sk_cases = []
+    for label, lhs, _rhs in captured.get("c02_inv", []):
+        if not (label.endswith(".ready") and lhs.startswith("contractible_b ")):
+            continue
+        args = split_top(lhs[len("contractible_b "):])
+        if len(args) != 3:
+            continue
+        sk_cases.append((label + ".sorted", "sorted_keys_b %s" % args[1], "true"))
+    if sk_cases:
+        t0 = time.time()
+        failing = coq_cases("c02_sorted", ["TreeState", "TreeStatePre", "TreeStateRec"], sk_cases,
+                            chunk=max(20, len(sk_cases) // 48 + 1), timeout=600)
+        ctx.log("sorted_keys_b on %d ready states in %.1fs, %d failing" % (len(sk_cases), time.time() - t0, len(failing)))
+        for idx, label, val in failing[:5]:
+            ctx.fail("a state in which a contraction ran has a children dict that is not keyed by sorted nodes "
+                     "(side condition sorted_keys_b of C02rec_history_value)",
+                     {"label": label, "value": val}, found_input=False)
+    ctx.assumptions.append(
+        "C02rec_history_value: boolean premises about the end state that are evaluated per run, not derived: "
+        "no exception, complete tree keyed by sorted nodes (sorted_keys_b), preproc_complete_b (inside contractible_b); "
+        "the per-primitive preconditions primA_pre_b are evaluated on every recorded trace (monA_ok)")
+
+
 def run(ctx):
-    c04.run_property(ctx, "C02")
+    captured = {}
+    orig = ctx.coq_cases
+
+    def wrapped(name, imports, cases, **kw):
+        captured.setdefault(name, []).extend(cases)
+        return orig(name, imports, cases, **kw)
+
+    ctx.coq_cases = wrapped
+    try:
+        c04.run_property(ctx, "C02")
+    finally:
+        ctx.coq_cases = orig
+    monitor_A(ctx, orig, captured)
 
 
 if __name__ == "__main__":
